@@ -269,18 +269,18 @@ func checkC08(P *Program, r *Result, tier string) {
 			continue
 		}
 		// the dispatcher is the function on the cycle that compares its tag with constants
-		hasCmp := false
+		cmpConsts := map[int64]bool{}
 		for _, b := range fn.Blocks {
 			for _, in := range b.Instrs {
 				if bo, ok := in.(*ssa.BinOp); ok && bo.Op == token.EQL && bo.X == ssa.Value(tpar) {
-					if _, isC := bo.Y.(*ssa.Const); isC {
-						hasCmp = true
+					if k, isC := constInt(bo.Y); isC {
+						cmpConsts[k] = true
 					}
 				}
 			}
 		}
-		if !hasCmp {
-			continue
+		if len(cmpConsts) < 3 {
+			continue // a helper that singles out one tag (e.g. STRING) is not the dispatcher
 		}
 		nd++
 		tags := map[int64]*ssa.BinOp{}
